@@ -1,5 +1,770 @@
 package main
 
+import (
+	"fmt"
+	"math/rand"
+	"strconv"
+	"strings"
+
+	"golang.org/x/net/http2"
+
+	"verif/internal/h2peer"
+)
+
+// creditBound: pkg/http2/flow.go, inflow.add withholds a WINDOW_UPDATE only
+// while unsent < inflowMinRefresh (4 << 10) and unsent < avail.
 const creditBound = 4095
 
-func recvCases() []kase { return nil }
+// Receiver side: the peer is the sender, the implementation must police the
+// windows it advertised and must give credit back.
+
+type recvCase struct {
+	Family string `json:"family"`
+	Rig    string `json:"rig"`
+	Index  int    `json:"index"`
+	Kind   string `json:"kind"` // stream-fill | conn-fill | accept | padding | closed
+	Sub    string `json:"sub,omitempty"`
+	UpConn int32  `json:"up_conn,omitempty"`
+	UpStr  int32  `json:"up_stream,omitempty"`
+	N      int    `json:"n_streams,omitempty"`
+	Pad    bool   `json:"pad,omitempty"`
+	Over   string `json:"overshoot,omitempty"` // byte | padbyte | many
+	Seed   int64  `json:"seed"`
+	Log    []string `json:"log,omitempty"`
+}
+
+// up is the sending side of one stream (peer -> implementation).
+type up struct {
+	sid uint32
+	key uint64
+	off int64
+}
+
+// sendFlow sends DATA frames with exactly flow flow-controlled bytes on u.
+func sendFlow(l *h2peer.Ledger, u *up, flow int64, pad bool, rng *rand.Rand, end bool) (padFlow int64, err error) {
+	mfs := l.ImplMaxFrame()
+	for flow > 0 {
+		f := flow
+		if f > mfs {
+			f = mfs
+		}
+		if f > 1 && rng.Intn(3) > 0 {
+			f = 1 + rng.Int63n(f)
+		}
+		padLen := -1
+		dataLen := f
+		if pad && f >= 1 && rng.Intn(2) == 0 {
+			maxPad := f - 1
+			if maxPad > 255 {
+				maxPad = 255
+			}
+			padLen = int(rng.Int63n(maxPad + 1))
+			if rng.Intn(3) == 0 {
+				padLen = int(maxPad)
+			}
+			dataLen = f - 1 - int64(padLen)
+			padFlow += 1 + int64(padLen)
+		}
+		b := make([]byte, dataLen)
+		h2peer.FillBody(u.key, u.off, b)
+		u.off += dataLen
+		flow -= f
+		if err := l.Data(u.sid, end && flow == 0, b, padLen); err != nil {
+			return padFlow, err
+		}
+	}
+	return padFlow, nil
+}
+
+type rcx struct {
+	c          *recvCase
+	l          *h2peer.Ledger
+	rng        *rand.Rand
+	advConn    int64 // 65535 + the stream-0 increments received during setup
+	pre        string
+}
+
+func (r *rcx) logf(format string, a ...any) {
+	if len(r.c.Log) < 40 {
+		r.c.Log = append(r.c.Log, fmt.Sprintf(format, a...))
+	}
+}
+
+// unreturned connection-level credit at this moment.
+func (r *rcx) unreturned() int64 { return r.advConn - r.l.ConnSendAllowance() }
+
+func (r *rcx) ledgerFinding() *finding {
+	if v := r.l.Violations(); len(v) > 0 {
+		return &finding{class: r.pre + v[0].Kind, msg: v[0].Msg}
+	}
+	return nil
+}
+
+func (r *rcx) ended() string {
+	if ga, code, dbg := r.l.GoAway(); ga {
+		return fmt.Sprintf("GOAWAY %v %q", code, dbg)
+	}
+	if r.l.EOF() {
+		return "connection closed"
+	}
+	return ""
+}
+
+// fence: one PING round trip (window updates are control frames).
+func (r *rcx) fence() *finding {
+	if err := r.l.FenceControl(watchdog); err != nil {
+		if e := r.ended(); e != "" {
+			return &finding{class: r.pre + "connection-ended", msg: "the implementation ended the connection although the peer stayed within the advertised windows: " + e}
+		}
+		return &finding{class: r.pre + "fence", msg: "PING not answered", incon: true}
+	}
+	run.Add("fences", 1)
+	return r.ledgerFinding()
+}
+
+// fill sends on the streams until the advertised allowance is exactly zero.
+func (r *rcx) fill(us []*up, pad bool) (padFlow int64, f *finding) {
+	l := r.l
+	for round := 0; round < 1000; round++ {
+		if f := r.fence(); f != nil {
+			return padFlow, f
+		}
+		conn := l.ConnSendAllowance()
+		var sent int64
+		for _, u := range us {
+			a := l.StreamSendAllowance(u.sid)
+			if a > conn-sent {
+				a = conn - sent
+			}
+			if a <= 0 {
+				continue
+			}
+			if len(us) > 1 && round == 0 && a > 1 {
+				a = 1 + r.rng.Int63n(a) // leave room for the other streams in the first round
+			}
+			p, err := sendFlow(l, u, a, pad && round == 0, r.rng, false)
+			padFlow += p
+			if err != nil {
+				return padFlow, &finding{class: r.pre + "write", msg: err.Error() + " " + r.ended(), incon: r.ended() == ""}
+			}
+			sent += a
+		}
+		if sent == 0 {
+			return padFlow, nil
+		}
+	}
+	return padFlow, &finding{class: r.pre + "fill", msg: "window never filled", incon: true}
+}
+
+// refused checks that the overshoot just sent on sid is answered by a flow-control error.
+func (r *rcx) refused(sid uint32, q *treq) *finding {
+	l := r.l
+	var d [8]byte
+	copy(d[:], "c12over!")
+	l.Ping(d)
+	l.WaitUntil(watchdog, func() bool {
+		st := l.Stream(sid)
+		ga, _, _ := l.GoAway()
+		return st.ImplReset || ga || l.PingAcked(d) || l.EOF()
+	})
+	st := l.Stream(sid)
+	ga, code, _ := l.GoAway()
+	switch {
+	case st.ImplReset && st.ImplResetCode == http2.ErrCodeFlowControl:
+		run.Add("receiver-overshoot-rst-stream", 1)
+		return nil
+	case ga && code == http2.ErrCodeFlowControl:
+		run.Add("receiver-overshoot-goaway", 1)
+		return nil
+	case !ga && l.EOF() && q != nil:
+		// transport: connection error, GOAWAY buffered but never flushed; the
+		// client side must report the flow-control error.
+		if q.hold != nil {
+			close(q.hold)
+			q.hold = nil
+		}
+		<-q.done
+		if strings.Contains(q.bodyErr, "FLOW_CONTROL_ERROR") || strings.Contains(q.err, "FLOW_CONTROL_ERROR") {
+			run.Add("receiver-overshoot-teardown-flow-control-error", 1)
+			return nil
+		}
+		return &finding{class: r.pre + "overshoot-not-refused", msg: fmt.Sprintf("overshoot on stream %d: connection closed, client-side error %q / %q does not name FLOW_CONTROL_ERROR", sid, q.err, q.bodyErr)}
+	}
+	return &finding{class: r.pre + "overshoot-not-refused", msg: fmt.Sprintf("peer exceeded the advertised window on stream %d (stream allowance %d, connection allowance %d): expected RST_STREAM or GOAWAY with FLOW_CONTROL_ERROR, got reset=%v(%v) goaway=%v(%v) eof=%v ping-acked=%v",
+		sid, l.StreamSendAllowance(sid), l.ConnSendAllowance(), st.ImplReset, st.ImplResetCode, ga, code, l.EOF(), l.PingAcked(d))}
+}
+
+func (r *rcx) overshoot(u *up) error {
+	switch r.c.Over {
+	case "padbyte":
+		return r.l.Data(u.sid, false, nil, 0) // PADDED, pad length 0, no data: one flow-controlled byte
+	case "many":
+		_, err := sendFlow(r.l, u, 1+r.rng.Int63n(5000), false, r.rng, false)
+		return err
+	}
+	_, err := sendFlow(r.l, u, 1, false, r.rng, false)
+	return err
+}
+
+func (r *rcx) checkBound(where string) *finding {
+	u := r.unreturned()
+	noteCredit(u)
+	run.Add("credit-bound-checks", 1)
+	if u > creditBound {
+		wu0, sent := r.l.ConnCredit()
+		return &finding{class: r.pre + "credit-not-returned", msg: fmt.Sprintf("%s: un-returned connection-level credit is %d bytes (> %d): advertised %d, peer sent %d flow-controlled bytes, stream-0 WINDOW_UPDATEs total %d", where, u, creditBound, r.advConn, sent, wu0)}
+	}
+	return nil
+}
+
+// ------------------------------------------------------------------ rig S
+
+func runRecvS(c *recvCase) *finding {
+	rng := rand.New(rand.NewSource(c.Seed))
+	s, err := newSrig(scfg{IW0: -1, MFS0: -1, UpConn: c.UpConn, UpStream: c.UpStr})
+	if err != nil {
+		return &finding{class: "S/recv/setup", msg: err.Error(), incon: true}
+	}
+	defer s.shutdown()
+	l := s.l
+	r := &rcx{c: c, l: l, rng: rng, pre: "S/recv/" + c.Kind + "/"}
+	r.advConn = l.ConnSendAllowance()
+	defer func() { collectStats(l, "S"); run.Add("handler-starts", s.starts) }()
+	r.logf("advertised: stream %d, connection %d, max frame %d", l.ImplInitialWindow(), r.advConn, l.ImplMaxFrame())
+	if got, want := l.ImplInitialWindow(), int64(c.UpStr); want > 0 && got != want {
+		return &finding{class: r.pre + "setup", msg: fmt.Sprintf("server advertised stream window %d, configured %d", got, want), incon: true}
+	}
+	keyBase := uint64(rng.Int63())
+	open := func(idx int, pl *plan) (*up, *finding) {
+		pl.Key = keyBase + uint64(idx)
+		pl.Abort = -1
+		sid, err := s.request(idx, pl, true)
+		if err != nil {
+			return nil, &finding{class: r.pre + "write", msg: err.Error(), incon: true}
+		}
+		return &up{sid: sid, key: reqKey(pl.Key)}, nil
+	}
+	n := c.N
+	if n < 1 {
+		n = 1
+	}
+	switch c.Kind {
+	case "stream-fill", "conn-fill", "accept":
+		var us []*up
+		var pls []*plan
+		for i := 1; i <= n; i++ {
+			pl := &plan{Req: "all", ReadSz: 1 + rng.Intn(40000), Resp: int64(rng.Intn(100)), start: make(chan struct{})}
+			u, f := open(i, pl)
+			if f != nil {
+				return f
+			}
+			us, pls = append(us, u), append(pls, pl)
+		}
+		_, f := r.fill(us, c.Pad)
+		if f != nil {
+			return f
+		}
+		// nothing was refused
+		for _, u := range us {
+			if st := l.Stream(u.sid); st.ImplReset {
+				return &finding{class: r.pre + "exact-fill-refused", msg: fmt.Sprintf("peer sent exactly the advertised window, stream %d was reset with %v", u.sid, st.ImplResetCode)}
+			}
+		}
+		if e := r.ended(); e != "" {
+			return &finding{class: r.pre + "exact-fill-refused", msg: "peer sent exactly the advertised window: " + e}
+		}
+		run.Add("receiver-exact-fill-accepted", 1)
+		u := us[rng.Intn(len(us))]
+		if c.Kind != "accept" {
+			binding := "connection"
+			if l.StreamSendAllowance(u.sid) <= 0 {
+				binding = "stream"
+			}
+			r.logf("window full (binding: %s); overshoot %q on stream %d", binding, c.Over, u.sid)
+			if err := r.overshoot(u); err != nil {
+				return &finding{class: r.pre + "write", msg: err.Error(), incon: true}
+			}
+			run.Add("receiver-overshoot-cases", 1)
+			run.Add("receiver-overshoot-"+binding+"-window", 1)
+			if f := r.refused(u.sid, nil); f != nil {
+				return f
+			}
+			for _, pl := range pls {
+				close(pl.start)
+			}
+			return r.ledgerFinding()
+		}
+		// accept: the handlers now read; send the rest of each body as window comes back
+		for _, pl := range pls {
+			close(pl.start)
+		}
+		totals := make([]int64, len(us))
+		for i := range us {
+			totals[i] = us[i].off + int64(rng.Intn(3*int(r.advConn)))
+		}
+		for i, u := range us {
+			for u.off < totals[i] {
+				var a int64
+				ok, d := l.WaitUntil(watchdog, func() bool {
+					a = l.StreamSendAllowance(u.sid)
+					if c := l.ConnSendAllowance(); c < a {
+						a = c
+					}
+					return a > 0
+				})
+				noteWait(d)
+				if !ok {
+					return &finding{class: r.pre + "credit-not-returned", msg: fmt.Sprintf("handler reads the body but no window came back within %v: stream %d allowance %d, connection allowance %d %s", watchdog, u.sid, l.StreamSendAllowance(u.sid), l.ConnSendAllowance(), r.ended()), stall: false}
+				}
+				if a > totals[i]-u.off {
+					a = totals[i] - u.off
+				}
+				if _, err := sendFlow(l, u, a, false, rng, false); err != nil {
+					return &finding{class: r.pre + "write", msg: err.Error(), incon: true}
+				}
+			}
+			l.Data(u.sid, true, nil, -1)
+		}
+		for i, pl := range pls {
+			<-pl.done
+			if pl.read != totals[i] || pl.badAt >= 0 {
+				return &finding{class: r.pre + "request-body", msg: fmt.Sprintf("stream %d: handler read %d of %d bytes, first bad offset %d, err %q", us[i].sid, pl.read, totals[i], pl.badAt, pl.rerr)}
+			}
+			run.Add("request-bodies-verified", 1)
+		}
+		ok, _ := l.WaitUntil(watchdog, func() bool {
+			for _, u := range us {
+				if st := l.Stream(u.sid); !st.Ended && !st.ImplReset {
+					return false
+				}
+			}
+			return true
+		})
+		if !ok {
+			return &finding{class: r.pre + "response", msg: "responses did not complete", incon: true}
+		}
+		if f := r.fence(); f != nil {
+			return f
+		}
+		return r.checkBound("all request bodies consumed, all streams closed")
+
+	case "padding":
+		pl := &plan{Req: "all", ReadSz: 8192, start: make(chan struct{})}
+		u, f := open(1, pl)
+		if f != nil {
+			return f
+		}
+		// many small padded frames: little data, much padding
+		var padFlow, flow int64
+		for padFlow < 24000 {
+			a := l.StreamSendAllowance(u.sid)
+			if c := l.ConnSendAllowance(); c < a {
+				a = c
+			}
+			if a < 300 {
+				if f := r.fence(); f != nil {
+					return f
+				}
+				a = l.StreamSendAllowance(u.sid)
+				if c := l.ConnSendAllowance(); c < a {
+					a = c
+				}
+				if a < 300 {
+					break
+				}
+			}
+			padLen := 200 + rng.Intn(56)
+			dl := rng.Intn(20)
+			b := make([]byte, dl)
+			h2peer.FillBody(u.key, u.off, b)
+			u.off += int64(dl)
+			l.Data(u.sid, false, b, padLen)
+			padFlow += int64(padLen) + 1
+			flow += int64(padLen) + 1 + int64(dl)
+		}
+		if f := r.fence(); f != nil {
+			return f
+		}
+		st := l.Stream(u.sid)
+		wu0, _ := l.ConnCredit()
+		retConn := wu0 - (r.advConn - 65535)
+		r.logf("padding %d bytes in %d flow-controlled bytes; returned: connection %d, stream %d", padFlow, flow, retConn, st.ImplGrants)
+		run.Add("padding-refund-checks", 2)
+		if retConn < padFlow-creditBound {
+			return &finding{class: r.pre + "padding-not-refunded", msg: fmt.Sprintf("%d bytes of padding sent (handler not reading), connection-level credit returned: %d (< padding - %d)", padFlow, retConn, creditBound)}
+		}
+		if st.ImplGrants < padFlow-creditBound {
+			return &finding{class: r.pre + "padding-not-refunded", msg: fmt.Sprintf("%d bytes of padding sent on stream %d (handler not reading), stream-level credit returned: %d (< padding - %d)", padFlow, u.sid, st.ImplGrants, creditBound)}
+		}
+		close(pl.start)
+		l.Data(u.sid, true, nil, -1)
+		<-pl.done
+		if pl.read != u.off || pl.badAt >= 0 {
+			return &finding{class: r.pre + "request-body", msg: fmt.Sprintf("handler read %d of %d bytes, first bad offset %d", pl.read, u.off, pl.badAt)}
+		}
+		l.WaitUntil(watchdog, func() bool { st := l.Stream(u.sid); return st.Ended || st.ImplReset })
+		if f := r.fence(); f != nil {
+			return f
+		}
+		return r.checkBound("padded body consumed, stream closed")
+
+	case "closed":
+		// DATA for streams the server no longer wants: connection-level credit must come back.
+		want := 3 * r.advConn
+		if want > 400000 {
+			want = 400000
+		}
+		var sentTotal int64
+		for i := 1; sentTotal < want; i++ {
+			pl := &plan{Resp: int64(rng.Intn(50))}
+			var u *up
+			var f *finding
+			limitStream := false
+			switch c.Sub {
+			case "handler-done": // handler returned without reading: END_STREAM + RST_STREAM(NO_ERROR)
+				pl.Req = "ignore"
+				if u, f = open(i, pl); f != nil {
+					return f
+				}
+				<-pl.done
+				l.WaitUntil(watchdog, func() bool { return l.Stream(u.sid).ImplReset })
+			case "handler-abort":
+				pl.Req = "part"
+				pl.ReqN = 10
+				if u, f = open(i, pl); f != nil {
+					return f
+				}
+				pl.Resp, pl.Abort = 100, 1
+				// plan fields are read by the handler after it has read 10 bytes
+				sendFlow(l, u, 10, false, rng, false)
+				<-pl.done
+				l.WaitUntil(watchdog, func() bool { return l.Stream(u.sid).ImplReset })
+			case "peer-reset": // unread buffered data, then RST_STREAM from the peer
+				pl.Req, pl.start = "all", make(chan struct{})
+				if u, f = open(i, pl); f != nil {
+					return f
+				}
+				a := l.StreamSendAllowance(u.sid)
+				if c := l.ConnSendAllowance(); c < a {
+					a = c
+				}
+				if a > 0 {
+					a = 1 + rng.Int63n(a)
+					sendFlow(l, u, a, c.Pad, rng, false)
+					sentTotal += a
+				}
+				l.Reset(u.sid, http2.ErrCodeCancel)
+				close(pl.start)
+				<-pl.done
+			case "body-closed": // handler closed the body and keeps the stream open
+				pl.Req, pl.finish = "close", make(chan struct{})
+				if u, f = open(i, pl); f != nil {
+					return f
+				}
+				<-pl.bodyClosed
+				limitStream = true
+				defer close(pl.finish)
+			case "half-closed": // END_STREAM sent, handler has not answered yet
+				pl.Req, pl.finish = "all", make(chan struct{})
+				if u, f = open(i, pl); f != nil {
+					return f
+				}
+				sendFlow(l, u, 1+rng.Int63n(100), false, rng, true)
+				defer close(pl.finish)
+			}
+			// now send DATA on that stream
+			burst := 1 + rng.Int63n(r.advConn)
+			for burst > 0 {
+				if f := r.fence(); f != nil {
+					return f
+				}
+				a := l.ConnSendAllowance()
+				if limitStream {
+					if sa := l.StreamSendAllowance(u.sid); sa < a {
+						a = sa
+					}
+					if a <= 0 && l.ConnSendAllowance() > 0 {
+						break // the stream window of this stream is used up (never refunded)
+					}
+				}
+				if a <= 0 {
+					return &finding{class: r.pre + "credit-not-returned", msg: fmt.Sprintf("%s: connection window exhausted (allowance %d) by DATA the server discarded; %d bytes sent in total on %d streams, un-returned %d", c.Sub, l.ConnSendAllowance(), sentTotal, i, r.unreturned())}
+				}
+				if a > burst {
+					a = burst
+				}
+				if _, err := sendFlow(l, u, a, c.Pad, rng, false); err != nil {
+					return &finding{class: r.pre + "write", msg: err.Error() + " " + r.ended(), incon: r.ended() == ""}
+				}
+				burst -= a
+				sentTotal += a
+			}
+			if f := r.fence(); f != nil {
+				return f
+			}
+			if c.Sub != "peer-reset" && c.Sub != "handler-abort" {
+				// everything sent so far was discarded at once
+				if f := r.checkBound(fmt.Sprintf("%s: after %d bytes of discarded DATA on %d streams", c.Sub, sentTotal, i)); f != nil {
+					return f
+				}
+			}
+			run.Add("discarded-data-streams", 1)
+		}
+		if f := r.fence(); f != nil {
+			return f
+		}
+		if c.Sub == "body-closed" || c.Sub == "half-closed" {
+			return r.ledgerFinding()
+		}
+		return r.checkBound(c.Sub + ": all streams closed")
+	}
+	return nil
+}
+
+// ------------------------------------------------------------------ rig T
+
+func runRecvT(c *recvCase) *finding {
+	rng := rand.New(rand.NewSource(c.Seed))
+	t, err := newTrig(tcfg{IW0: -1, MFS0: -1})
+	if err != nil {
+		return &finding{class: "T/recv/setup", msg: err.Error(), incon: true}
+	}
+	defer t.shutdown()
+	l := t.l
+	r := &rcx{c: c, l: l, rng: rng, pre: "T/recv/" + c.Kind + "/"}
+	r.advConn = l.ConnSendAllowance()
+	defer func() { collectStats(l, "T"); run.Add("transport-requests", t.starts) }()
+	r.logf("advertised: stream %d, connection %d, max frame %d", l.ImplInitialWindow(), r.advConn, l.ImplMaxFrame())
+	keyBase := uint64(rng.Int63())
+	open := func(idx int, q *treq) (*up, *finding) {
+		q.NoBody = true
+		q.Key = keyBase + uint64(idx)
+		q.respKey = reqKey(q.Key)
+		t.start(idx, q)
+		sid, err := t.waitSid(idx)
+		if err != nil {
+			return nil, &finding{class: r.pre + "setup", msg: err.Error(), incon: true}
+		}
+		l.Respond(sid, "200", false)
+		select {
+		case <-q.gotHdr:
+		case <-t.dead:
+		}
+		return &up{sid: sid, key: q.respKey}, nil
+	}
+	switch c.Kind {
+	case "stream-fill", "accept":
+		q := &treq{Resp: "all", ReadSz: 1 + rng.Intn(60000), hold: make(chan struct{})}
+		u, f := open(1, q)
+		if f != nil {
+			return f
+		}
+		if _, f := r.fill([]*up{u}, c.Pad); f != nil {
+			return f
+		}
+		if st := l.Stream(u.sid); st.ImplReset || r.ended() != "" {
+			return &finding{class: r.pre + "exact-fill-refused", msg: fmt.Sprintf("peer sent exactly the advertised stream window (%d bytes): reset=%v %s", u.off, st.ImplReset, r.ended())}
+		}
+		run.Add("receiver-exact-fill-accepted", 1)
+		if c.Kind == "stream-fill" {
+			r.logf("stream window full after %d bytes; overshoot %q", u.off, c.Over)
+			if err := r.overshoot(u); err != nil {
+				return &finding{class: r.pre + "write", msg: err.Error(), incon: true}
+			}
+			run.Add("receiver-overshoot-cases", 1)
+			run.Add("receiver-overshoot-stream-window", 1)
+			return r.refused(u.sid, q)
+		}
+		close(q.hold)
+		q.hold = nil
+		total := u.off + int64(rng.Intn(2<<20))
+		for u.off < total {
+			var a int64
+			ok, d := l.WaitUntil(watchdog, func() bool {
+				a = l.StreamSendAllowance(u.sid)
+				if c := l.ConnSendAllowance(); c < a {
+					a = c
+				}
+				return a > 0
+			})
+			noteWait(d)
+			if !ok {
+				return &finding{class: r.pre + "credit-not-returned", msg: fmt.Sprintf("client reads the body but no window came back within %v: stream allowance %d %s", watchdog, l.StreamSendAllowance(u.sid), r.ended())}
+			}
+			if a > total-u.off {
+				a = total - u.off
+			}
+			if _, err := sendFlow(l, u, a, false, rng, false); err != nil {
+				return &finding{class: r.pre + "write", msg: err.Error(), incon: true}
+			}
+		}
+		l.Data(u.sid, true, nil, -1)
+		<-q.done
+		if q.read != total || q.badAt >= 0 || q.bodyErr != "" {
+			return &finding{class: r.pre + "response-body", msg: fmt.Sprintf("client read %d of %d bytes, first bad offset %d, err %q", q.read, total, q.badAt, q.bodyErr)}
+		}
+		run.Add("response-bodies-verified", 1)
+		if f := r.fence(); f != nil {
+			return f
+		}
+		return r.checkBound("response body consumed, stream closed")
+
+	case "padding":
+		q := &treq{Resp: "all", hold: make(chan struct{})}
+		u, f := open(1, q)
+		if f != nil {
+			return f
+		}
+		var padFlow, flow int64
+		for padFlow < 24000 {
+			padLen := 200 + rng.Intn(56)
+			dl := rng.Intn(20)
+			b := make([]byte, dl)
+			h2peer.FillBody(u.key, u.off, b)
+			u.off += int64(dl)
+			l.Data(u.sid, false, b, padLen)
+			padFlow += int64(padLen) + 1
+			flow += int64(padLen) + 1 + int64(dl)
+		}
+		if f := r.fence(); f != nil {
+			return f
+		}
+		st := l.Stream(u.sid)
+		wu0, _ := l.ConnCredit()
+		retConn := wu0 - (r.advConn - 65535)
+		r.logf("padding %d bytes in %d flow-controlled bytes; returned: connection %d, stream %d", padFlow, flow, retConn, st.ImplGrants)
+		run.Add("padding-refund-checks", 2)
+		if retConn < padFlow-creditBound || st.ImplGrants < padFlow-creditBound {
+			return &finding{class: r.pre + "padding-not-refunded", msg: fmt.Sprintf("%d bytes of padding sent (client not reading), credit returned: connection %d, stream %d (< padding - %d)", padFlow, retConn, st.ImplGrants, creditBound)}
+		}
+		close(q.hold)
+		q.hold = nil
+		l.Data(u.sid, true, nil, -1)
+		<-q.done
+		if q.read != u.off || q.badAt >= 0 {
+			return &finding{class: r.pre + "response-body", msg: fmt.Sprintf("client read %d of %d bytes, first bad offset %d", q.read, u.off, q.badAt)}
+		}
+		if f := r.fence(); f != nil {
+			return f
+		}
+		return r.checkBound("padded body consumed, stream closed")
+
+	case "closed":
+		var sentTotal int64
+		for i := 1; sentTotal < 600000; i++ {
+			q := &treq{}
+			pre := int64(0)
+			switch c.Sub {
+			case "body-closed": // client closes the body without reading
+				q.Resp = "close"
+			case "cancel": // client reads a little, then cancels
+				q.Resp, q.RespN = "cancel", 100
+				pre = 100 + rng.Int63n(50000)
+			case "part": // reads part, then closes with data still buffered
+				q.Resp, q.RespN = "part", 1+rng.Int63n(1000)
+				pre = 1000 + rng.Int63n(50000)
+			case "peer-reset":
+				q.Resp, q.hold = "all", make(chan struct{})
+				pre = 1 + rng.Int63n(60000)
+			}
+			u, f := open(i, q)
+			if f != nil {
+				return f
+			}
+			if pre > 0 {
+				if q.hold == nil {
+					// the client may already be gone: data goes to whatever state the stream is in
+				}
+				sendFlow(l, u, pre, c.Pad, rng, false)
+				sentTotal += pre
+			}
+			if c.Sub == "peer-reset" {
+				l.Reset(u.sid, http2.ErrCodeCancel)
+				close(q.hold)
+				q.hold = nil
+			}
+			<-q.done
+			// the client is done with the stream: everything from now on is discarded
+			burst := 1 + rng.Int63n(100000)
+			if _, err := sendFlow(l, u, burst, c.Pad, rng, false); err != nil {
+				return &finding{class: r.pre + "write", msg: err.Error() + " " + r.ended(), incon: r.ended() == ""}
+			}
+			sentTotal += burst
+			if f := r.fence(); f != nil {
+				return f
+			}
+			if f := r.checkBound(fmt.Sprintf("%s: after %d bytes on %d streams the client had finished with", c.Sub, sentTotal, i)); f != nil {
+				return f
+			}
+			run.Add("discarded-data-streams", 1)
+		}
+		return r.ledgerFinding()
+	}
+	return nil
+}
+
+func recvCases() []kase {
+	var cases []kase
+	add := func(c *recvCase) {
+		c.Family = "recv"
+		c.Index = len(cases)
+		c.Seed = run.Rand(2000003 + int64(c.Index)).Int63()
+		cc := c
+		cases = append(cases, kase{family: "recv", rig: c.Rig, index: c.Index, exec: func() (*finding, any) {
+			k := *cc
+			var f *finding
+			if k.Rig == "S" {
+				f = runRecvS(&k)
+			} else {
+				f = runRecvT(&k)
+			}
+			run.Distinct("recv/" + k.Rig + "/" + k.Kind + "/" + k.Sub + "/" + strconv.Itoa(int(k.UpConn)) + "/" + strconv.Itoa(int(k.UpStr)) + "/" + k.Over + strconv.FormatBool(k.Pad) + strconv.Itoa(k.N))
+			if k.Kind == "padding" && run.WantSample() {
+				run.Sample(k)
+			}
+			return f, &k
+		}})
+	}
+	reps := run.Pick(1, 8)
+	overs := []string{"byte", "padbyte", "many"}
+	for rep := 0; rep < reps; rep++ {
+		i := 0
+		for _, up := range []int32{1, 100, 4096, 16384, 65535, 70000, 300000} {
+			for _, conn := range []int32{65535, 66000, 200000} {
+				i++
+				add(&recvCase{Rig: "S", Kind: "stream-fill", UpStr: up, UpConn: conn, N: 1, Pad: i%2 == 0, Over: overs[i%3]})
+			}
+		}
+		for _, conn := range []int32{65535, 65536, 70000, 100000} {
+			for _, n := range []int{2, 5, 40} {
+				i++
+				add(&recvCase{Rig: "S", Kind: "conn-fill", UpStr: 1 << 20, UpConn: conn, N: n, Pad: i%2 == 0, Over: overs[i%3]})
+			}
+		}
+		for _, up := range []int32{1000, 65535, 200000} {
+			for _, conn := range []int32{65535, 70000, 150000} {
+				i++
+				add(&recvCase{Rig: "S", Kind: "accept", UpStr: up, UpConn: conn, N: 1 + i%3, Pad: i%2 == 0})
+			}
+		}
+		for _, conn := range []int32{65535, 80000, 1 << 20} {
+			add(&recvCase{Rig: "S", Kind: "padding", UpStr: 200000, UpConn: conn})
+		}
+		for _, sub := range []string{"handler-done", "handler-abort", "peer-reset", "body-closed", "half-closed"} {
+			for _, conn := range []int32{65535, 70000, 200000} {
+				i++
+				add(&recvCase{Rig: "S", Kind: "closed", Sub: sub, UpStr: 65535, UpConn: conn, Pad: i%2 == 0})
+			}
+		}
+		for j, over := range overs {
+			add(&recvCase{Rig: "T", Kind: "stream-fill", Over: over, Pad: j%2 == 0})
+		}
+		add(&recvCase{Rig: "T", Kind: "accept", Pad: true})
+		add(&recvCase{Rig: "T", Kind: "accept"})
+		add(&recvCase{Rig: "T", Kind: "padding"})
+		for j, sub := range []string{"body-closed", "cancel", "part", "peer-reset"} {
+			add(&recvCase{Rig: "T", Kind: "closed", Sub: sub, Pad: j%2 == 0})
+		}
+	}
+	return cases
+}
